@@ -229,9 +229,11 @@ def removeRecord (st : State) (id : RecordId) : State :=
   | none => st
   | some r => removeSession { st with records := kdel (·.id) id st.records } r.session
 
-/-- `RemoveScope` (scope.go:169-198): burn the value-owner coin, remove every record stored under
-the scope's record prefix (sessions go only through `RemoveRecord`), drop the index entries,
-delete the scope. -/
+/-- `RemoveScope` (scope.go:169-210, the current code, i.e. after the repair ab8bb51a7): burn the
+value-owner coin, remove every record stored under the scope's record prefix (`RemoveRecord`
+drops a session with its last record), then remove the sessions still stored under the scope's
+session prefix (`RemoveSession` — they have no records left), drop the index entries, delete the
+scope. -/
 def removeScope (st : State) (id : UUID) : State :=
   match kget (·.id) st.scopes id with
   | none => st
@@ -239,19 +241,20 @@ def removeScope (st : State) (id : UUID) : State :=
     let st := setScopeValueOwner st id ""
     let recs := st.records.filter (fun r => r.id.scope = id)
     let st := recs.foldl (fun st r => removeRecord st r.id) st
+    let st := { st with sessions := st.sessions.filter (fun x => x.id.scope ≠ id) }
     let st := indexScope st none (some sc)
     { st with scopes := kdel (·.id) id st.scopes }
 
-/-- PROPOSED FIX (not in the code): `RemoveScope` that also deletes the sessions stored under the
-scope's session prefix after the records are gone. -/
-def removeScopeFixed (st : State) (id : UUID) : State :=
+/-- HISTORICAL: `RemoveScope` as it was BEFORE the repair ab8bb51a7 (scope.go:169-198 at
+d172e538b): only the record walk; a session went only through `RemoveRecord`, so a session that
+never held a record survived.  Kept for the witness theorems `…_before_fix` only. -/
+def removeScopePreFix (st : State) (id : UUID) : State :=
   match kget (·.id) st.scopes id with
   | none => st
   | some sc =>
     let st := setScopeValueOwner st id ""
     let recs := st.records.filter (fun r => r.id.scope = id)
     let st := recs.foldl (fun st r => removeRecord st r.id) st
-    let st := { st with sessions := st.sessions.filter (fun x => x.id.scope ≠ id) }
     let st := indexScope st none (some sc)
     { st with scopes := kdel (·.id) id st.scopes }
 
@@ -375,7 +378,7 @@ def writeScope (st : State) (sc : Scope) (valueOwner : String) (usdMills : Nat) 
   .ok (setScope st sc valueOwner)
 
 /-- `msgServer.DeleteScope` (msg_server.go:68-89) with `ValidateDeleteScope` (scope.go:524-585);
-`rm` is the keeper's `RemoveScope` (the code's, or the proposed fix). -/
+`rm` is the keeper's `RemoveScope` (the current one, or the historical pre-fix one). -/
 def deleteScopeWith (rm : State → UUID → State) (st : State) (id : UUID) : Except Err State :=
   if !khas (·.id) st.scopes id then .error .invalid
   else .ok (removeNetAssetValues (rm st id) id)
@@ -643,6 +646,10 @@ def runWith (rm : State → UUID → State) (H : String → NameKey) (st : State
 
 /-- a history of messages on the code as it is -/
 def run (H : String → NameKey) (st : State) (ops : List Op) : State := runWith removeScope H st ops
+
+/-- HISTORICAL: a history of messages on the code before the repair ab8bb51a7 -/
+def runPreFix (H : String → NameKey) (st : State) (ops : List Op) : State :=
+  runWith removeScopePreFix H st ops
 
 /-- the empty store -/
 def State.empty : State := {}
